@@ -20,6 +20,7 @@ import KavaVerif.Model.Accumulator
   c09.sum    src T s                                Σ source shares = total source shares
   c09.sumle  src T s                                Σ listed users' shares ≤ total (delegations: the validator's own)
   c09.bound  src nusers nsyncs emission sumT credited
+  c09.integral src u nsyncU gained flo slack        the owner's synchronised claim against the harness's own time integral
 -/
 namespace Drv.C09
 open KV KV.Acc
@@ -287,6 +288,26 @@ def handleBound : Handler
     | _, _, _, _, _ => badInput "parse"
   | _ => badInput "arity"
 
+/-- `C09_integral` on the real synchronised claim of the position owner `u` after an operation:
+    |2P·(gained·P² − flo)| ≤ P·(nsyncU + 1)·(P² + P) + slack, where gained = synchronised reward + claimed,
+    flo / slack the harness's own time integral Σ_b ⌊rate·secs_b·P·s_u(b)/T_b⌋ and Σ_b ((P+2)·s_u(b) + P)
+    (the +1 is the synchronisation that turns pending into accrued). -/
+def handleIntegral : Handler
+  | [src, u, nsyncU, gained, flo, slack] =>
+    match int? nsyncU, int? gained, int? flo, int? slack with
+    | some ns, some g, some fl, some sl =>
+      let lhs := 2 * P * (g * P * P - fl)
+      let allow := P * (ns + 1) * (P * P + P) + sl
+      let op := ((src.splitOn ":").getD 1 "")
+      let what := if op == "hrep3" then "third-party-repay" else if op == "cdep3" then "third-party-deposit" else op
+      if lhs < -allow then
+        predfail "C09_integral" s!"owner-reward-lost {what} src={src} user={u} credited={g} integral={fl / (P * P)} syncs={ns}"
+      else if lhs > allow then
+        predfail "C09_integral" s!"owner-reward-exceeds-integral {what} src={src} user={u} credited={g} integral={fl / (P * P)} syncs={ns}"
+      else "ok"
+    | _, _, _, _ => badInput "parse"
+  | _ => badInput "arity"
+
 def handleSecs : Handler
   | [d, _, secs] =>
     match int? d with
@@ -306,6 +327,7 @@ def handlers : List (String × Handler) := [
   ("c09.kclaim", handleKClaim),
   ("c09.sum", handleSum),
   ("c09.sumle", handleSumLe),
-  ("c09.bound", handleBound)
+  ("c09.bound", handleBound),
+  ("c09.integral", handleIntegral)
 ]
 end Drv.C09
